@@ -589,6 +589,13 @@ def gather(ctx):
         y, meta = specgen_metrics.gen(rng)
         pops.append({"yaml": y, "kind": "generated-metrics", "arch": True, "syms": {}, "meta": meta})
     pops += list(popgen.compute_only(rng, 4 if q else 16))
+    # metrics mode over dynamically partitioned specifications (hoistable partitioning chains next to metrics headers)
+    import specgen_hw
+    for it in popgen.occupancy(rng, 24 if q else 100):
+        w = specgen_hw.wrap_single(rng, it)
+        if w is not None:
+            w = dict(w, meta=w.get("meta", {}))
+            pops.append(w)
     # metrics mode with non-empty loop headers / footers (eager buffets, evict-on ranks, several buffer levels)
     import specgen_c12
     for _ in range(24 if q else 100):
